@@ -256,6 +256,7 @@ func runC09(c *Ctx) {
 		return strings.HasPrefix(k, "Update-success-returns-Commit-result") || strings.HasPrefix(k, "Update-returns-function-error")
 	})
 	checkInvalidationAlwaysEvicts(c, "C09-R2")
+	checkIssuingTransactionKeepsAccountCache(c, "C09-R2")
 	checkDryRunFlagForwardedOrFalse(c, "C09-R2")
 	// nothing but the commit callback (and the loader) moves the in-memory next index: a reader that writes a
 	// snapshot's index back rewinds it behind a concurrent issuer (C08-R1's rule, taken over)
